@@ -45,7 +45,7 @@ type absHint struct {
 }
 
 // absCutEnabled: cut requests also in runs under the abstract shadow (needs ARecvCut in Abs/Exec.v)
-var absCutEnabled = false
+var absCutEnabled = true
 
 type absShadow struct {
 	pay     map[string]uint64
